@@ -282,6 +282,7 @@ int muggle_aes_cfb128(
 	MUGGLE_CHECK_RET(ctx->mode == MUGGLE_BLOCK_CIPHER_MODE_CFB, MUGGLE_ERR_INVALID_PARAM);
 	MUGGLE_CHECK_RET(input != NULL, MUGGLE_ERR_NULL_PARAM);
 	MUGGLE_CHECK_RET(iv != NULL, MUGGLE_ERR_NULL_PARAM);
+	MUGGLE_CHECK_RET(iv_offset != NULL, MUGGLE_ERR_NULL_PARAM);
 	MUGGLE_CHECK_RET(*iv_offset < MUGGLE_AES_BLOCK_SIZE, MUGGLE_ERR_INVALID_PARAM);
 	MUGGLE_CHECK_RET(output != NULL, MUGGLE_ERR_NULL_PARAM);
 
@@ -327,6 +328,7 @@ int muggle_aes_ofb128(
 	MUGGLE_CHECK_RET(ctx->mode == MUGGLE_BLOCK_CIPHER_MODE_OFB, MUGGLE_ERR_INVALID_PARAM);
 	MUGGLE_CHECK_RET(input != NULL, MUGGLE_ERR_NULL_PARAM);
 	MUGGLE_CHECK_RET(iv != NULL, MUGGLE_ERR_NULL_PARAM);
+	MUGGLE_CHECK_RET(iv_offset != NULL, MUGGLE_ERR_NULL_PARAM);
 	MUGGLE_CHECK_RET(*iv_offset < MUGGLE_AES_BLOCK_SIZE, MUGGLE_ERR_INVALID_PARAM);
 	MUGGLE_CHECK_RET(output != NULL, MUGGLE_ERR_NULL_PARAM);
 
@@ -362,6 +364,7 @@ int muggle_aes_ctr(
 	MUGGLE_CHECK_RET(ctx != NULL, MUGGLE_ERR_NULL_PARAM);
 	MUGGLE_CHECK_RET(ctx->mode == MUGGLE_BLOCK_CIPHER_MODE_CTR, MUGGLE_ERR_INVALID_PARAM);
 	MUGGLE_CHECK_RET(input != NULL, MUGGLE_ERR_NULL_PARAM);
+	MUGGLE_CHECK_RET(nonce != NULL, MUGGLE_ERR_NULL_PARAM);
 	MUGGLE_CHECK_RET(nonce_offset != NULL, MUGGLE_ERR_NULL_PARAM);
 	MUGGLE_CHECK_RET(*nonce_offset < MUGGLE_AES_BLOCK_SIZE, MUGGLE_ERR_INVALID_PARAM);
 	MUGGLE_CHECK_RET(stream_block != NULL, MUGGLE_ERR_NULL_PARAM);
